@@ -450,6 +450,12 @@ def generate(rng, tier):
                 rho = make_rho(rng, names, avoid=(tmp,))
                 rho[o["tname"] if role == "tname" else role] = tmp
                 cases.append({"kind": "transform", "rho": rho, "orig": o})
+    # ... and every dummy name of the pool (names containing position words among them) for a user ufunc
+    # under map_overlap
+    for D in ["winner", "router", "x_inner", "outerY", "q", "Outer", "in", "uncentered", "left_", "Xright", "center"]:
+        rho = make_rho(rng, ["X", "xc", "xl", "t"], avoid=(D,))
+        rho["D"] = D
+        cases.append({"kind": "other", "rho": rho, "orig": {"what": "overlap_ufunc"}})
     return cases
 
 
